@@ -480,6 +480,25 @@ def oracle(c, obs):
     def state_of(o):
         return dict(o[1])
 
+    def triggers(v):
+        """which kinds the offered object exhibits (plain reading of the seven definitions)"""
+        t = set()
+        if v['empty']:
+            t.add('empty')
+        if v['rows'] != len(v['oids']):
+            t.add('obssize')
+        if v['cols'] != len(v['sids']):
+            t.add('sampsize')
+        if len(set(v['oids'])) != len(v['oids']):
+            t.add('obsdup')
+        if len(set(v['sids'])) != len(v['sids']):
+            t.add('sampdup')
+        if v['omd'] is not None and v['omd'] != v['rows']:
+            t.add('obsmdsize')
+        if v['smd'] is not None and v['smd'] != v['cols']:
+            t.add('sampmdsize')
+        return t
+
     def walk(prog, cur):
         for ins in prog:
             op = ins[0]
@@ -497,7 +516,19 @@ def oracle(c, obs):
                     fails.append('after seterr%s profile is %s, expected %s' % (ins[1], state_of(s), new))
                 cur = state_of(s)
             elif op in ('setcall', 'getcall', 'check'):
-                next(it); s = next(it)
+                r = next(it); s = next(it)
+                if op == 'check' and all(k in KINDS for k in ins[2]):
+                    # the configured reaction is what happens: when at most one of the kinds the
+                    # object exhibits has a reaction other than 'ignore', that reaction (or nothing)
+                    # must be observed -- an ignored kind must not hide another one
+                    live = [k for k in sorted(triggers(ins[1]) & set(ins[2] or KINDS)) if cur.get(k) != 'ignore']
+                    if len(live) <= 1:
+                        want = ['none']
+                        if live:
+                            want = [cur[live[0]], live[0]] + ([dict(s[2]).get(live[0])] if cur[live[0]] == 'call' else [])
+                        if r[1] != ['ok', want]:
+                            fails.append('errcheck with profile %s on an object exhibiting %s: expected %s, observed %s'
+                                         % (cur, sorted(triggers(ins[1])), want, r[1]))
                 if state_of(s) != cur:
                     fails.append('%s changed the profile' % op)
                 cur = state_of(s)
